@@ -201,6 +201,10 @@ func main() {
 	var plays []*play
 	for i := 0; i < *n; i++ {
 		p := genPlay(rng, i)
+		// a panic inside the play kills this process: leave the play being
+		// run, and the plays completed so far, where the check finds them
+		vh.WriteJSON(*out, "current.json", p)
+		vh.WriteJSON(*out, "cases.json", plays)
 		_, before := raceLogSize(*raceLog)
 		t0 := time.Now()
 		p.Err, p.Narration = cmd.VerifRun(p.Cfg, p.EarlyExit, 20*time.Second)
